@@ -48,6 +48,8 @@ func alphabet(name string) *Alphabet {
 		{K: "gauge", A: "B", Dur: H1, C: 1, Fut: true, N: 1},
 		{K: "gauge", A: "B", Perp: true, Dur: H24, C: 1, Fut: true, N: 1},
 		{K: "gauge", A: "A", Dur: H1, C: 1, N: 3},
+		// starts exactly at the block time of the next epoch-end block (when `epoch` follows immediately)
+		{K: "gauge", A: "B", Dur: H1, C: 0, Tie: true, N: 2},
 	}
 	locksBase := []Op{
 		{K: "lock", A: "A", Amt: 100, Dur: H1},
